@@ -141,7 +141,7 @@ def evaluate(pid, cases, oc=None, compare_outside_domain=False):
     from . import lean
     oc = oc or Outcome(pid)
     cases = [c for c in cases if RELEVANT[pid](c['cls'])]
-    texts = [(TJ.to_text(c['ro']), c.get('msg_text') or TJ.to_text(c['msg'])) for c in cases]
+    texts = [(c.get('ro_text') or TJ.to_text(c['ro']), c.get('msg_text') or TJ.to_text(c['msg'])) for c in cases]
     # cases from live histories carry the implementation's observation already
     todo = [i for i, c in enumerate(cases) if 'impl' not in c]
     fresh = run_impl([texts[i] for i in todo])
@@ -228,6 +228,8 @@ def evaluate(pid, cases, oc=None, compare_outside_domain=False):
                 if len(oc.samples) < 6 and (len(oc.nontrivial) % 97 == 1 or len(oc.samples) < 2):
                     oc.samples.append({'label': c['label'], 'ro': ro_text, 'msg': msg_text,
                                        'outcome': {'err': o['err'], 'warns': o['warns']}})
+    if pid == 'C04':
+        file_route(oc)
     if pid == 'C06':
         collection_route(oc, [(c, t, o) for c, t, o in zip(cases, texts, impl_obs)
                               if 'err' in o and not o['err'] and len(o.get('warns') or []) >= 2 and 'live_history' not in c])
@@ -278,15 +280,77 @@ def history_level(oc, pid, cases):
         depth += 1
 
 
+def file_route(oc):
+    """C04 for messages that arrive as FILES in another encoding (declared in the XML declaration): what the
+    message carries must reach the running order exactly as the document says (neutral reading of the same bytes)."""
+    import os, tempfile, warnings, pathlib
+    from . import impl, lean, build as B
+    from .treejson import E
+    from mosromgr.mostypes import MosFile
+    txt = 'Caf\u00e9 Zo\u00eb \u00a320 \u00bd'
+    item = lambda i: B.item(i, extra=[E('note', text=txt, attrs={'lang': 'fran\u00e7ais'})])
+    story = lambda i: B.story(i, [B.p(txt), item(i + '-1')])
+    ro = B.ro_doc([B.story('A', [B.item('I1'), B.item('I2')]), B.story('B', [])])
+    msgs = {'StoryAppend': B.story_append([story('X')]), 'StoryInsert': B.story_insert('B', [story('X')]), 'StoryReplace': B.story_replace('A', [story('X')]),
+            'StorySend': B.story_send('A', [B.p(txt), item('S1')]), 'ItemInsert': B.item_insert('A', 'I2', [item('N')]),
+            'ItemReplace': B.item_replace('A', 'I1', [item('N')]), 'EAStoryInsert': B.ea('INSERT', {'storyID': 'B'}, [[story('X')]]),
+            'EAItemReplace': B.ea('REPLACE', {'storyID': 'A', 'itemID': 'I1'}, [[item('N')]]),
+            'RunningOrderReplace': B.ro_replace([story('X')], slug=txt), 'MetaDataReplace': B.metadata_replace([E('roSlug', text=txt)])}
+    encs = [('iso-8859-1', 'ISO-8859-1'), ('cp1252', 'windows-1252'), ('utf-16', 'UTF-16'), ('utf-8', 'UTF-8')]
+    jobs = []
+    tmp = tempfile.mkdtemp(prefix='mrm-c04-')
+    try:
+        for cls, msg in msgs.items():
+            for enc, decl in encs:
+                data = ('<?xml version="1.0" encoding="%s"?>' % decl + TJ.to_text(msg)).encode(enc)
+                path = os.path.join(tmp, f'{cls}-{enc}.mos.xml')
+                with open(path, 'wb') as f:
+                    f.write(data)
+                neutral = TJ.to_tree(__import__('xml.etree.ElementTree', fromlist=['x']).fromstring(data))
+                r = impl.load(TJ.to_text(ro))
+                try:
+                    with warnings.catch_warnings():
+                        warnings.simplefilter('ignore')
+                        mo = MosFile.from_file(pathlib.Path(path) if enc == 'cp1252' else path)
+                    o = impl.add(r, mo)
+                except Exception as e:  # noqa: BLE001
+                    o = {'err': 'load:' + impl.err_name(e), 'warns': [], 'ro': TJ.to_tree(r.xml)}
+                jobs.append((cls, enc, data, neutral, o))
+    finally:
+        import shutil
+        shutil.rmtree(tmp, ignore_errors=True)
+    ro_t = TJ.canon(ro)
+    resps = lean.run_batch([{'op': 'add', 'ro': ro_t, 'msg': n, 'impl': {'err': None if str(o['err']).startswith('load:') else o['err'],
+                                                                        'warns': o['warns'], 'ro': o['ro']}} for _, _, _, n, o in jobs])
+    for (cls, enc, data, neutral, o), r in zip(jobs, resps):
+        oc.evaluations += 1
+        oc.in_domain += 1
+        oc.count('file-route:' + enc)
+        bad = str(o['err']).startswith('load:') or not r.get('props', {}).get('C04', {}).get('holds', False) or o['ro'] != r['model']['ro']
+        if bad:
+            oc.failing.append({'kind': 'add', 'label': f'{cls} from a file in {enc}', 'cls': cls, 'ro_text': TJ.to_text(ro), 'msg_text': TJ.to_text(neutral),
+                               'file_route': {'encoding': enc, 'data_hex': data.hex()},
+                               'spec': 'a message read from a file in the encoding its declaration names carries its content into the running order exactly',
+                               'impl': {'err': o['err'], 'ro_text': TJ.to_text(o['ro'])[:1500]}, 'model': {'ro_text': TJ.to_text(r['model']['ro'])[:1500]}})
+
+
 def collection_route(oc, triples, limit=400):
     """C06 through the other documented route: the same running order and message as a two-document
     collection merged non-strictly and strictly must report exactly the warnings `ro += msg` reports."""
-    import warnings
+    import re, warnings
     from . import impl
     from mosromgr.moscollection import MosCollection
     step = max(1, len(triples) // limit)
-    for c, (ro_text, msg_text), o in triples[::step]:
-        for strict in (False, True):
+    for c, (ro_text, msg_text0), o in triples[::step]:
+        for strict in (False, True, 'tied'):
+            msg_text = msg_text0
+            if strict == 'tied':
+                # the message carries the same message ID as the roCreate: it is still a message of the collection
+                m = re.search(r'<messageID>([^<]*)</messageID>', ro_text)
+                if not m:
+                    break
+                msg_text = re.sub(r'<messageID>[^<]*</messageID>', '<messageID>%s</messageID>' % m.group(1), msg_text0, count=1)
+                strict = False
             try:
                 with warnings.catch_warnings():
                     warnings.simplefilter('ignore')
@@ -337,6 +401,10 @@ def c07_extra(o):
 def replay_add(pid, rec):
     """Re-run one recorded (ro_text, msg_text) on the current tree; returns (still_failing, detail)."""
     from . import lean
+    if 'file_route' in rec:
+        oc2 = Outcome(pid)
+        file_route(oc2)
+        return bool(oc2.failing), {'failing': [f['label'] for f in oc2.failing]}
     if 'route' in rec:
         oc2 = Outcome(pid)
         o = _impl_one((rec['ro_text'], rec['msg_text']))
